@@ -12,6 +12,7 @@ import (
 	"fmt"
 	"math/big"
 	"sort"
+	"strings"
 	"time"
 
 	"github.com/influxdata/influxdb/v2/inmem"
@@ -65,10 +66,11 @@ func bigOf(t time.Time) *big.Int {
 	return z.Add(z, big.NewInt(int64(t.Nanosecond())))
 }
 func zlit(s string) string {
-	if len(s) > 0 && s[0] == '-' {
-		return "(" + s + ")%Z"
+	v, ok := new(big.Int).SetString(s, 10)
+	if !ok {
+		panic("bad integer " + s)
 	}
-	return s + "%Z"
+	return zfast(v)
 }
 
 // truncated start (relative to year 1) as a big integer, from the inputs only
@@ -95,6 +97,46 @@ type env struct {
 	store *inmem.KVStore
 	c     *meta.Client
 	pw    *coordinator.PointsWriter
+}
+
+// zfast renders an integer as a Gallina Z term.  Coq 8.16 elaborates a 19-digit decimal
+// literal in ~5 ms but the explicit binary constructor form in ~0.5 ms, which dominates the
+// run time of a shard (the judge itself runs in microseconds), so large values are written
+// as Zpos/Zneg constructor terms.
+func zfast(v *big.Int) string {
+	if v.IsInt64() && v.Int64() > -1000000 && v.Int64() < 1000000 {
+		if v.Sign() < 0 {
+			return fmt.Sprintf("(%d)%%Z", v.Int64())
+		}
+		return fmt.Sprintf("%d%%Z", v.Int64())
+	}
+	a := new(big.Int).Abs(v)
+	bits := a.Text(2)
+	var b strings.Builder
+	if v.Sign() < 0 {
+		b.WriteString("(Zneg ")
+	} else {
+		b.WriteString("(Zpos ")
+	}
+	// most significant bit is xH, innermost; least significant bit is the outermost constructor
+	for i := len(bits) - 1; i >= 1; i-- {
+		if bits[i] == '1' {
+			b.WriteString("(xI ")
+		} else {
+			b.WriteString("(xO ")
+		}
+	}
+	b.WriteString("xH")
+	b.WriteString(strings.Repeat(")", len(bits)))
+	return b.String()
+}
+func zz(v int64) string { return zfast(big.NewInt(v)) }
+func zzs(vs []int64) string {
+	xs := make([]string, len(vs))
+	for i, v := range vs {
+		xs[i] = zz(v)
+	}
+	return vh.List(xs)
 }
 
 func must(err error) {
@@ -248,19 +290,19 @@ func gterm(g jgroup) string {
 func opTerm(o jop) string {
 	switch o.K {
 	case "setd":
-		return "OSetD " + vh.Z(o.D)
+		return "OSetD " + zz(o.D)
 	case "create":
-		return "OCreate " + vh.Z(o.T)
+		return "OCreate " + zz(o.T)
 	case "lookup":
-		return "OLookup " + vh.Z(o.T)
+		return "OLookup " + zz(o.T)
 	case "range":
-		return "ORange " + vh.Z(o.Lo) + " " + vh.Z(o.Hi)
+		return "ORange " + zz(o.Lo) + " " + zz(o.Hi)
 	case "delete":
 		return "ODelete " + vh.N(o.ID)
 	case "reload":
 		return "OReload"
 	case "write":
-		return "OWrite " + vh.Zs(o.Ts)
+		return "OWrite " + zzs(o.Ts)
 	}
 	panic("bad op")
 }
@@ -342,7 +384,7 @@ func run(w *vh.W, c *jcase) {
 			c.Res = append(c.Res, e.exec(o))
 		}
 	}); p != "" {
-		idx := w.Add(fmt.Sprintf("{| c_d := %s; c_ops := []; c_res := [] |}", vh.Z(c.D)), c, false, "")
+		idx := w.Add(fmt.Sprintf("{| c_d := %s; c_ops := []; c_res := [] |}", zz(c.D)), c, false, "")
 		w.Fail(idx, "panic on the real code: "+p, "")
 		return
 	}
@@ -368,7 +410,7 @@ func run(w *vh.W, c *jcase) {
 		ngroups = len(c.Res[len(c.Res)-1].Groups)
 	}
 	sig := shapeSig(c)
-	t := fmt.Sprintf("{| c_d := %s; c_ops := %s; c_res := %s |}", vh.Z(c.D), vh.List(ops), vh.List(res))
+	t := fmt.Sprintf("{| c_d := %s; c_ops := %s; c_res := %s |}", zz(c.D), vh.List(ops), vh.List(res))
 	w.Add(t, c, ngroups >= 2 && nreload >= 1 && ncreate >= 2, sig)
 	w.Count("groups_final", fmt.Sprint(min(ngroups, 8)))
 	w.Count("tagged_wrap_shape", fmt.Sprint(sig != ""))
